@@ -17,31 +17,53 @@ def _quiet():
 # ----------------------------------------------------------------------------- descriptions
 
 def layout_chain(name: str) -> list[str]:
-    """Qubit names of a repetition layout in chain order, derived from the live gate sequences
-    (walk from the lexicographically smaller end)."""
+    """Qubit names of a repetition layout in chain order, derived from its PARITY GROUPS (ancilla between its two data
+    qubits; walk from the lexicographically smaller end) — not from the gate layers: whether the gates realise the chain is what
+    `layout_gate_problems` judges (round 4: a layout whose gate layers couple an ancilla twice to the same data qubit made the
+    former gate-derived walk fail an assertion, i.e. crash the check)."""
     _quiet()
     from qce_circuit.library.repetition_code import repetition_code_connectivity as m
     lay = getattr(m, name)()
     adj: dict[str, list[str]] = {}
-    for i in range(lay.gate_sequence_count):
-        for e in lay.get_gate_sequence_at_index(index=i).edge_ids:
-            a, b = [q.id for q in e.qubit_ids]
+    for g in list(lay.parity_group_x) + list(lay.parity_group_z):
+        a = g.ancilla_id.id
+        for d in g.data_ids:
             adj.setdefault(a, [])
-            adj.setdefault(b, [])
-            if b not in adj[a]:
-                adj[a].append(b)
-            if a not in adj[b]:
-                adj[b].append(a)
+            adj.setdefault(d.id, [])
+            if d.id not in adj[a]:
+                adj[a].append(d.id)
+            if a not in adj[d.id]:
+                adj[d.id].append(a)
     ends = sorted(q for q, n in adj.items() if len(n) == 1)
-    assert len(ends) == 2 and all(len(n) <= 2 for n in adj.values()), f'{name} is not a chain'
+    if not (len(ends) == 2 and all(len(n) <= 2 for n in adj.values())):
+        raise ValueError(f'{name}: the parity groups do not form a chain')
     chain = [ends[0]]
     while True:
         nxt = [q for q in adj[chain[-1]] if q not in chain]
         if not nxt:
             break
         chain.append(nxt[0])
-    assert len(chain) == len(adj)
+    if len(chain) != len(adj):
+        raise ValueError(f'{name}: the parity groups do not form a chain')
     return chain
+
+
+def layout_gate_problems(name: str) -> list:
+    """the gate layers of a repetition layout couple every ancilla exactly once with each of its two chain neighbours and with
+    nothing else (what "accumulated parity of its two neighbouring data qubits" needs).  Returns the offending pairs."""
+    _quiet()
+    from qce_circuit.library.repetition_code import repetition_code_connectivity as m
+    lay = getattr(m, name)()
+    chain = layout_chain(name)
+    want = sorted(tuple(sorted(p)) for p in zip(chain, chain[1:]))
+    got = []
+    for i in range(lay.gate_sequence_count):
+        for e in lay.get_gate_sequence_at_index(index=i).edge_ids:
+            got.append(tuple(sorted(q.id for q in e.qubit_ids)))
+    got.sort()
+    if got == want:
+        return []
+    return [{'layout': name, 'missing': [p for p in want if p not in got], 'extra_or_repeated': [p for p in got if got.count(p) > 1 or p not in want]}]
 
 
 def layout_data_names(name: str) -> set[str]:
